@@ -74,7 +74,8 @@ theorem C09_credential_table (cfg : LifeCfg) (h : cfg.cn = some "client") :
     tlsServed cfg (certOf "good") = true ∧ tlsServed cfg (certOf "none") = false ∧
     tlsServed cfg (certOf "selfsigned") = false ∧ tlsServed cfg (certOf "foreign") = false ∧
     tlsServed cfg (certOf "expired") = false ∧ tlsServed cfg (certOf "wrongcn") = false ∧
-    tlsServed cfg (certOf "intercn") = false := by
+    tlsServed cfg (certOf "intercn") = false ∧ tlsServed cfg (certOf "straycn") = false ∧
+    tlsServed cfg (certOf "straygood") = false := by
   simp [tlsServed, certOf, h]
 
 end GoRedis
